@@ -83,8 +83,16 @@ func (e *Engine) investigate(cfg RunConfig, s *Solver, r *OblResult, cands []Can
 	}
 	info := e.entries[funcOfObl(r.Name)]
 	if info == nil || strings.Contains(r.Name, "~case") || r.FailObl == nil {
+		rec["why"] = "no generic replay adapter for this obligation family"
+		if found, violated, wrec := e.runWitness(cfg, r.Name); found {
+			rec["witness"] = wrec
+			if violated {
+				rec["verdict"] = "violation"
+				write()
+				return true, replayFile, "witness scenario violates the clause on the real code"
+			}
+		}
 		rec["verdict"] = "no-failing-input-found"
-		rec["why"] = "no replay adapter for this obligation family"
 		write()
 		return false, replayFile, "no adapter"
 	}
@@ -93,8 +101,16 @@ func (e *Engine) investigate(cfg RunConfig, s *Solver, r *OblResult, cands []Can
 		cl = clauseOf(info, r.Name)
 	}
 	if r.Kind != "post" && !strings.HasPrefix(r.Kind, "safe.") {
-		rec["verdict"] = "no-failing-input-found"
 		rec["why"] = "obligation kind " + r.Kind + " has no directly observable counterpart"
+		if found, violated, wrec := e.runWitness(cfg, r.Name); found {
+			rec["witness"] = wrec
+			if violated {
+				rec["verdict"] = "violation"
+				write()
+				return true, replayFile, "witness scenario violates the clause on the real code"
+			}
+		}
+		rec["verdict"] = "no-failing-input-found"
 		write()
 		return false, replayFile, "kind"
 	}
@@ -141,8 +157,16 @@ func (e *Engine) investigate(cfg RunConfig, s *Solver, r *OblResult, cands []Can
 		}
 		tried = append(tried, rp)
 	}
-	rec["verdict"] = "no-failing-input-found"
 	rec["replays"] = trimReplays(tried)
+	if found, violated, wrec := e.runWitness(cfg, r.Name); found {
+		rec["witness"] = wrec
+		if violated {
+			rec["verdict"] = "violation"
+			write()
+			return true, replayFile, "witness scenario violates the clause on the real code"
+		}
+	}
+	rec["verdict"] = "no-failing-input-found"
 	write()
 	return false, replayFile, "no candidate confirmed"
 }
